@@ -169,6 +169,17 @@ def rule_r2_r3_r4(ctx, rep):
         ok = ok_def and before and at_call
         rep.oblige(("R2", "position", norm(call)), ok, sample={"insertion": norm(call), "index from": norm(pos_defs[0]) if pos_defs else None,
                                                                 "taken before the removal": before})
+        # ... and it is looked up in the round that uses it: a position computed before earlier references of the same parent were
+        # expanded is stale (the child list has grown or shrunk since)
+        mut_loops = [n for n in ast.walk(fi.node) if isinstance(n, ast.For) and any(x is rm_call for x in ast.walk(n))]
+        fresh = all(any(any(x is d for x in ast.walk(lp_)) for d in pos_defs) for lp_ in mut_loops) if pos_defs else True
+        rebound = any(isinstance(lp_, ast.For) and any(isinstance(x, ast.Name) and x.id == v for x in ast.walk(lp_.target)) and any(x is call for x in ast.walk(lp_))
+                      and not enum_adv for lp_ in ast.walk(fi.node))
+        if ok_def and (not fresh or rebound):
+            rep.oblige(("R2", "fresh position", norm(call)), False)
+            rep.add("R2", fi.qname, pos_defs[0], "the position of the references node is looked up before the loop that expands the references: when an "
+                    "earlier reference of the same parent expands to a number of children other than one, the stored position is stale and the "
+                    "copies land in the wrong place", fi.loc(pos_defs[0]))
         if not ok_def:
             rep.add("R2", fi.qname, call, f"the insertion index `{v}` is not the position of the references node in its parent", fi.loc(call))
         elif not before:
